@@ -11,6 +11,9 @@
 //	smsg <slot> <validator> <root>                                AddSyncCommitteeMessage      -> ok | err | panic
 //	scontrib <slot> <root> <subnet> <bits> <sig>                  AddSyncCommitteeContribution -> ok | err | panic
 //	sreset <slot>                                                 SyncCommitteePool.Reset      -> ok
+//	sdump                                                         contents of the six SyncCommitteePool buffers (through the
+//	                                                              read-only `verif` hook eth2/pool/verif_export.go; the exported API
+//	                                                              cannot read them) -> ok cur=<slot> m=[prev|cur|next] c=[prev|cur|next] keys=<bool>
 //	select <root> <members> <v:root,...>                          SyncCommitteeMessages.Select -> ok <validators in member order>
 //	covers <a> <b> | single <bits> <committee> | ones <bits> | bitlen <bits> | getbit <bits> <i>   AttestationBits functions
 //
@@ -351,6 +354,36 @@ func (w *world) step(f []string) string {
 		}
 		w.sync.Reset(common.Slot(s))
 		return "ok"
+	case "sdump":
+		if len(f) != 1 {
+			return "bad-op"
+		}
+		snap := w.sync.VerifSnapshot()
+		buf := func(alloc bool, items []string) string {
+			if !alloc {
+				return "-"
+			}
+			sort.Strings(items)
+			return "{" + strings.Join(items, ",") + "}"
+		}
+		var ms, cs [3]string
+		for i := 0; i < 3; i++ {
+			var items []string
+			for _, m := range snap.Msgs[i] {
+				if m.Signature != sigOf(3) {
+					items = append(items, "corrupt")
+					continue
+				}
+				items = append(items, fmt.Sprintf("%d.%d.%s", uint64(m.Slot), uint64(m.ValidatorIndex), tagOf(m.BeaconBlockRoot)))
+			}
+			ms[i] = buf(snap.MsgsAllocated[i], items)
+			items = nil
+			for _, c := range snap.Contribs[i] {
+				items = append(items, fmt.Sprintf("%s.%d.%s.%s", tagOf(c.BeaconBlockRoot), c.SubcommitteeIndex, hexOf(c.AggregationBits), sigID(c.Signature)))
+			}
+			cs[i] = buf(snap.ContribsAlloc[i], items)
+		}
+		return fmt.Sprintf("ok cur=%d m=[%s] c=[%s] keys=%s", uint64(snap.CurrentSlot), strings.Join(ms[:], "|"), strings.Join(cs[:], "|"), hreg.B2S(snap.MsgKeysMatching))
 	case "select":
 		if len(f) != 4 {
 			return "bad-op"
@@ -562,10 +595,11 @@ func gen(o hreg.Opts, w *bufio.Writer) error {
 			"att 2 0 0 0 13 1 1,2,3,4", "att 2 0 0 0 1c 2 1,2,3,4", "att 2 0 0 0 1c 2 1,2,3,4", "search * *", "att 2 0 0 0 1f 3 1,2,3,4", "att 2 0 0 0 16 4 1,2,3,4", "search * *",
 		},
 		{ // sync pool: before any Reset the pool sits one slot before slot 0
-			"smsg 0 1 1", "scontrib 0 1 0 0f 1", "smsg 18446744073709551615 1 1", "smsg 18446744073709551614 2 1", "smsg 1 1 1", "smsg 18446744073709551613 1 1",
+			"sdump", "smsg 0 1 1", "scontrib 0 1 0 0f 1", "sdump", "smsg 18446744073709551615 1 1", "smsg 18446744073709551614 2 1", "smsg 1 1 1", "smsg 18446744073709551613 1 1",
 			"sreset 0", "smsg 0 1 1", "smsg 1 1 1", "smsg 18446744073709551615 1 1", "smsg 2 1 1", "scontrib 1 1 3 0f 1", "scontrib 2 1 3 0f 1",
 			"sreset 1", "smsg 0 2 2", "smsg 2 2 2", "smsg 3 2 2", "sreset 0", "smsg 18446744073709551615 2 2", "smsg 1 1 1", "smsg 2 1 1",
-			"sreset 18446744073709551615", "smsg 0 1 1", "smsg 18446744073709551614 1 1", "smsg 1 1 1", "sreset 18446744073709551615", "sreset 77", "smsg 76 1 1", "smsg 77 1 1", "smsg 78 1 1", "smsg 79 1 1", "smsg 75 1 1",
+			"sreset 18446744073709551615", "smsg 0 1 1", "smsg 18446744073709551614 1 1", "smsg 1 1 1", "sreset 18446744073709551615", "sreset 77", "smsg 76 1 1", "smsg 77 1 1", "smsg 78 1 1", "smsg 79 1 1", "smsg 75 1 1", "sdump",
+			"scontrib 77 2 1 0f 4", "scontrib 77 2 1 03 5", "scontrib 78 2 0 01 6", "smsg 77 1 2", "sdump", "sreset 78", "sdump", "sreset 77", "sdump", "sreset 79", "sdump", "sreset 78", "sdump", "sreset 78", "sdump",
 		},
 		{
 			"select 1 1,2,3 1:1,3:1", "select 1 1,2,3 -", "select 1 - 1:1", "select 2 3,1,1 1:2,3:2,2:1", "select 1 5 5:1", "select 5 1 1:5,1:6", "select 6 1 1:5,1:6", "select 5 1,1,2 1:5,2:5,1:5",
@@ -668,8 +702,25 @@ func gen(o hreg.Opts, w *bufio.Writer) error {
 		var past []attLine
 		curSync := maxU
 		nOps := 5 + rng.Intn(26)
+		syncFocus := rng.Intn(5) == 0 // a sequence that mostly drives the sync-committee pool
+		if syncFocus {
+			st.Add("seq-kind", "sync-focus")
+			if rng.Intn(2) == 0 {
+				curSync = []uint64{0, 1, 5, maxU - 1, maxU, 1 << 40}[rng.Intn(6)]
+				emit("sreset", fmt.Sprintf("sreset %d", curSync))
+			}
+		} else {
+			st.Add("seq-kind", "mixed")
+		}
 		for i := 0; i < nOps; i++ {
-			switch c := rng.Intn(100); {
+			c := rng.Intn(100)
+			if syncFocus && c < 88 {
+				c = 88 + rng.Intn(10) // 88..92 add message/contribution, 93..97 reset
+				if rng.Intn(3) != 0 {
+					c = 88
+				}
+			}
+			switch {
 			case c < 55:
 				var a attLine
 				if len(past) > 0 && rng.Intn(5) == 0 { // exact duplicate
@@ -764,7 +815,7 @@ func gen(o hreg.Opts, w *bufio.Writer) error {
 				if rng.Intn(20) == 0 {
 					slot = []uint64{0, 1, maxU, maxU - 1, 2}[rng.Intn(5)]
 				}
-				st.Add("sync-offset", strconv.FormatInt(int64(slot-curSync), 10))
+				st.Add("sync-offset", offBucket(int64(slot-curSync)))
 				if rng.Intn(3) == 0 {
 					emit("scontrib", fmt.Sprintf("scontrib %d %d %d %s %d", slot, rng.Intn(3), rng.Intn(4), hexOf([]byte{byte(rng.Intn(256))}), rng.Intn(100)))
 				} else {
@@ -776,9 +827,10 @@ func gen(o hreg.Opts, w *bufio.Writer) error {
 				if rng.Intn(10) == 0 {
 					slot = []uint64{0, 1, maxU, maxU - 1, 1000}[rng.Intn(5)]
 				}
-				st.Add("sreset-offset", strconv.FormatInt(int64(slot-curSync), 10))
+				st.Add("sreset-offset", offBucket(int64(slot-curSync)))
 				curSync = slot
 				emit("sreset", fmt.Sprintf("sreset %d", slot))
+				emit("sdump", "sdump")
 			default:
 				var ms []string
 				for v := 0; v < 5; v++ {
@@ -798,8 +850,19 @@ func gen(o hreg.Opts, w *bufio.Writer) error {
 			}
 		}
 		emit("search", "search * *")
+		emit("sdump", "sdump")
 	}
 	return nil
+}
+
+func offBucket(d int64) string {
+	switch {
+	case d < -3:
+		return "<-3"
+	case d > 3:
+		return ">3"
+	}
+	return strconv.FormatInt(d, 10)
 }
 
 // bitLenOf mirrors bitfields.BitlistLen (used only to build matching committees)
